@@ -13,12 +13,15 @@ class Task(object):
         self.name = name
         self.obligations = []
         self.world = None
+        self.worlds = []
 
     def explore(self, world, run, case, allow_raise=None):
         """run(it) executes one path and states its obligations with it.ctx.oblige.
         allow_raise: None -> any escaping exception is an obligation failure 'raises.none';
                      callable(it, exc) -> handles an escaping PyExc (states obligations)."""
         self.world = world
+        if world not in self.worlds:
+            self.worlds.append(world)
         res = explore(world, run, '%s/%s' % (self.name, case))
         n_paths = 0
         for i, p in enumerate(res):
@@ -75,5 +78,12 @@ class Task(object):
         self._add(Obligation(name, st, v.backend, v.time_s, smt.fingerprint(list(facts)), reason='cover: hypotheses must be satisfiable', kind='vacuity'))
 
     def result(self):
-        units = [u.describe() for u in (self.world.units_used.values() if self.world else [])]
+        ws = list(self.worlds)
+        if self.world is not None and self.world not in ws:
+            ws.append(self.world)
+        seen = {}
+        for w in ws:
+            for u in w.units_used.values():
+                seen[u.qualname] = u.describe()
+        units = list(seen.values())
         return {'task': self.name, 'obligations': [o.to_json() for o in self.obligations], 'units': units}
